@@ -100,7 +100,7 @@ theorem Entry.map_map {X : Type} (f : V → W) (g : W → X) (e : Entry V) : (e.
 
 def SC.map (f : V → W) (sc : SC K B V) : SC K B W :=
   { capK := sc.capK, maxDepth := sc.maxDepth, cache := amap (LRU.map (Entry.map f)) sc.cache,
-    links := sc.links, evictions := sc.evictions }
+    links := sc.links, evictions := sc.evictions, entryEv := sc.entryEv }
 
 def RPc.map (f : V → W) : RPc B V → RPc B W
   | .cache => .cache
@@ -373,6 +373,7 @@ def Op.map (f : V → W) : Op H K B V → Op H K B W
   | .bcommit h => .bcommit h
   | .qget b k => .qget b k
   | .sget k b => .sget k b
+  | .srem k => .srem k
 
 def Out.map (f : V → W) : Out V → Out W
   | .ok => .ok
@@ -529,6 +530,15 @@ theorem Sys.step_map (f : V → W) (s : Sys H K B V) (op : Op H K B V) :
       rw [aset_amap]
   | qget b k => simp only [Sys.step, Op.map, Sys.map, SC.get_map, Out.ofOption_map]
   | sget k b => simp only [Sys.step, Op.map, Sys.map, SC.get_map, Out.ofOption_map]
+  | srem k =>
+    simp only [Sys.step, Op.map, Sys.map, Out.map]
+    have : (s.sc.map f).remove k = (s.sc.remove k).map f := by
+      unfold SC.remove SC.map
+      simp only [alookup_amap]
+      cases alookup s.sc.cache k with
+      | none => rfl
+      | some m => simp only [Option.map_some]; rw [aerase_amap]
+    rw [this]
 
 /-! ### maps compose -/
 
